@@ -44,7 +44,8 @@ COMPONENTS = {
 }
 EXPECTED_PROBES = ["empty_partition", "partition_only_inert_rows", "partition_covered_by_box",
                    "step_filter", "step_set_geometry", "step_pack", "step_parquet",
-                   "step_parquet_bounds", "step_parquet_geometry", "query_sjoin", "query_cx",
+                   "step_parquet_bounds", "step_parquet_geometry", "step_parquet_columns_reordered",
+                   "query_sjoin", "query_cx",
                    "query_other_geometry_series"]
 
 QUERIES = ("cx", "cx", "cx_series", "cx_partitions", "bounds", "total_bounds", "area", "length",
